@@ -103,6 +103,8 @@ enum Edit {
     Insert(usize, Kind),
     Delete(usize),
     Replace(usize, Kind),
+    /// swap the token with its right neighbour
+    Swap(usize),
 }
 
 fn edits_for(len: usize) -> Vec<Edit> {
@@ -111,6 +113,9 @@ fn edits_for(len: usize) -> Vec<Edit> {
         for k in ALL_KINDS {
             v.push(Edit::Insert(p, k));
         }
+    }
+    for p in 0..len.saturating_sub(1) {
+        v.push(Edit::Swap(p));
     }
     for p in 0..len {
         v.push(Edit::Delete(p));
@@ -135,6 +140,11 @@ fn apply_edit(toks: &mut Vec<Tok>, e: Edit) {
                 toks.remove(p);
             }
         }
+        Edit::Swap(p) => {
+            if p + 1 < toks.len() {
+                toks.swap(p, p + 1);
+            }
+        }
         Edit::Replace(p, k) => {
             if p < toks.len() {
                 toks[p] = Tok {
@@ -155,7 +165,7 @@ pub fn eedit1(seed_idx: usize) -> Space {
         name: format!("E-EDIT/{name}/d=1"),
         n,
         describe: format!(
-            "every single token insertion, deletion and replacement (34 kinds) applied to seed document `{name}` ({} tokens)",
+            "every single token insertion, deletion, replacement (34 kinds) and adjacent swap applied to seed document `{name}` ({} tokens)",
             toks.len()
         ),
         gen: Box::new(move |i| {
